@@ -38,11 +38,22 @@ def shard_fn(shard, nshards, seed, tier, exe, ninputs):
                 items.append(("long", t))
                 break
     items.append(("long", b'["' + bytes(rng.choice(b"ab\\\"/ \xc3\xa9") if rng.random() > 0.1 else 0x61 for _ in range(rng.choice([100, 255, 256, 257, 600]))).replace(b'\\"', b"q").replace(b'"', b"'") + b'",' + b"1234567890" * rng.choice([3, 7, 20]) + b"]"))
+    # one token far beyond any buffer or limit a tokener might have per CALL: pieces of it arrive in calls that each see only part of it
+    hk = (shard + seed) % 8
+    big = [b"[" + b"1234567890" * rng.choice([410, 500, 900]) + b"]",
+           b"[0." + b"0123456789" * rng.choice([410, 700]) + b"e-5,1]",
+           b'["' + b"abcdefghij" * rng.choice([6554, 6600, 7000]) + b'"]',
+           b'{"' + b"k234567890" * rng.choice([6554, 6600, 7000]) + b'":1}',
+           b"[1/*" + b"c234567890" * rng.choice([500, 6600]) + b"*/,2]",
+           b"[1//" + b"c234567890" * rng.choice([500, 6600]) + b"\n,2]",
+           b"-" + b"9" * rng.choice([4096, 4097, 5000]) + b" ",
+           b'{"a":"' + b"\\u00e9" * rng.choice([700, 11000]) + b'"}'][hk]
+    items.append(("huge", big))
     comment_cuts = {}
     # comments and white space AFTER the complete root value (where a call that ends there must still say "more input needed" or "done" consistently)
     for j in range(len(items)):
         kind, s = items[j]
-        if kind not in ("stream", "long", "listed-witness") and 0 < len(s) < 200 and rng.random() < 0.08:
+        if kind not in ("stream", "long", "huge", "listed-witness") and 0 < len(s) < 200 and rng.random() < 0.08:
             suf = rng.choice([b"//c\n", b" // trailing comment\n", b" //x", b"/*c*/", b" /* c */ ", b"\n/* a\n b */\n", b" /*", b" /", b"//\n//\n"])
             items[j] = (kind, s + suf)
             sh.count("inputs.with_comment_after_the_root_value")
@@ -72,14 +83,17 @@ def shard_fn(shard, nshards, seed, tier, exe, ninputs):
             cmds = ["T 0xff 8 %d x%s" % (sd, s.hex()), "X 0x0f 0 4 %d x%s" % (sd, s.hex())]
         else:
             # every 2-split (n<=256), every 3-split (n<=32), all-1-byte, 8 random partitions, 8 flag sets
-            if kind == "long":
+            if kind == "huge":
+                # 12 random partitions into up to 6 pieces (+ the whole thing in one call) under two flag sets; one-shot references are computed for the cut points only
+                cmds = ["X %d 0 12 %d x%s" % (1 << rng.randrange(8) | 1, sd, s.hex())]
+            elif kind == "long":
                 # every 2-split under two random flag sets + 24 random partitions (nrand < 0 asks for all 2-splits beyond 256 bytes)
                 cmds = ["X %d 0 -24 %d x%s" % (1 << rng.randrange(8) | 1, sd, s.hex())]
             else:
                 cmds = ["X 0xff 32 8 %d x%s" % (sd, s.hex())]
             if rng.random() < 0.15 or kind in ("literal", "listed-witness"):
                 cmds.append("T 0x0f 4 %d x%s" % (sd, s.hex()))
-            if rng.random() < 0.15 and kind != "long" and not s.endswith(b"\0") and len(s) < 200:
+            if rng.random() < 0.15 and kind not in ("long", "huge") and not s.endswith(b"\0") and len(s) < 200:
                 # the same input with its terminating NUL as part of the text: every other partition then hands its last piece over as a C string (len = -1)
                 cmds.append("X 0x%02x 0 4 %d x%s00" % (rng.choice([0x05, 0x03, 0x11, 0xff]), sd, s.hex()))
         if i in comment_cuts:
